@@ -917,7 +917,7 @@ func (e *Env) callref(x *SExpr) Term {
 				if c == e.curCall {
 					break
 				}
-				if c.block == e.curCall.block && contains(c.names, x.Str) {
+				if c.depth == 0 && c.block == e.curCall.block && contains(c.names, x.Str) {
 					pick = c
 				}
 			}
@@ -929,7 +929,7 @@ func (e *Env) callref(x *SExpr) Term {
 			// ambiguous in a postcondition: the last matching call in the returning block
 			var pick *CallSite
 			for _, c := range fe.calls {
-				if c.block == e.at && contains(c.names, x.Str) {
+				if c.depth == 0 && c.block == e.at && contains(c.names, x.Str) {
 					pick = c
 				}
 			}
